@@ -42,8 +42,42 @@ def _scalar_store(fn, n, params):
     return cur["n"], ".".join(reversed(path))
 
 
-def refusals_after_store(fn, fields=None):
+def _param_store(fn, n, params):
+    """(param, field path) if n is `param->a.b = other_param` with both pointer parameters: the object takes the caller's object over."""
+    if n.get("k") != "asg" or n.get("op") != "=":
+        return None
+    l, r = strip(n["l"]), fn.resolve(strip(n["r"]))
+    g = 0
+    while isinstance(r, dict) and r.get("k") == "cast" and g < 4:
+        g += 1
+        r = fn.resolve(strip(r["e"]))
+    if l.get("k") != "mem" or not (isinstance(r, dict) and r.get("k") == "var" and r.get("n") in params):
+        return None
+    path, cur, arrow = [], l, False
+    while isinstance(cur, dict) and cur.get("k") == "mem":
+        path.append(cur["f"])
+        arrow = arrow or cur.get("arrow", False)
+        cur = strip(cur.get("b"))
+    if not isinstance(cur, dict) or cur.get("k") != "var" or cur.get("n") not in params or not arrow or cur["n"] == r["n"]:
+        return None
+    return cur["n"], ".".join(reversed(path))
+
+
+def _any_store(fn, m, params, st):
+    """any assignment to the same parameter field (e.g. back to NULL) ends the obligation"""
+    if m.get("k") != "asg":
+        return False
+    l = strip(m["l"])
+    path, cur = [], l
+    while isinstance(cur, dict) and cur.get("k") == "mem":
+        path.append(cur["f"])
+        cur = strip(cur.get("b"))
+    return isinstance(cur, dict) and cur.get("k") == "var" and (cur.get("n"), ".".join(reversed(path))) == st
+
+
+def refusals_after_store(fn, fields=None, store=None):
     """Yield (param, field, store_loc, return_loc, path) for scalar stores after which a failing return is reachable."""
+    _scalar_store_ = store or _scalar_store
     var = status_var(fn)
     if var is None:
         return
@@ -58,7 +92,7 @@ def refusals_after_store(fn, fields=None):
         if not isinstance(e, dict):
             continue
         for n in walk(e):
-            st = _scalar_store(fn, n, params)
+            st = _scalar_store_(fn, n, params)
             if st is None or (fields is not None and st[1] not in fields):
                 continue
             par, field = st
@@ -76,7 +110,7 @@ def refusals_after_store(fn, fields=None):
                 restored = False
                 for j in range(i + 1, len(elems)):
                     for m in walk(elems[j]["e"]) if isinstance(elems[j]["e"], dict) else ():
-                        if _scalar_store(fn, m, params) == st:
+                        if _scalar_store_(fn, m, params) == st or _any_store(fn, m, params, st):
                             restored = True
                 if restored:
                     continue
@@ -107,7 +141,7 @@ def refusals_after_store(fn, fields=None):
                         for j, el2 in enumerate(fn.blocks[b]["elems"]):
                             if isinstance(el2["e"], dict):
                                 for m in walk(el2["e"]):
-                                    if _scalar_store(fn, m, params) == st:
+                                    if _scalar_store_(fn, m, params) == st or _any_store(fn, m, params, st):
                                         again = True
                         for (rb, ri) in rets:
                             if rb == b and not again and ERR in sg.block_out(b, so, upto=ri):
